@@ -1144,4 +1144,106 @@ theorem encode_of_object (Γ : Ctx) (fac : Factory) (cfg : SerCfg) (n : Nat) {v 
   | list xs => simp [asObject] at h
   | attrs a => simp [asObject] at h
 
+/-! ### typing is enough in a universe without subclass pools -/
+
+theorem find_mem {Γ : Ctx} {k : ClassId} {ci : ClassInfo} (h : Γ.find k = some ci) : ci ∈ Γ.classes ∧ ci.id = k := by
+  unfold Ctx.find at h
+  exact ⟨List.mem_of_find?_eq_some h, by simpa using List.find?_some h⟩
+
+theorem valOKu_valOKj (e : BEnv) (Γ : Ctx) (fac : Factory) (huni : noSubclassPools Γ = true) :
+    ∀ (n : Nat) (c : ClassId) (v : Val), valOKu e Γ fac n c v = true → valOKj e Γ fac n c v = true := by
+  intro n
+  induction n with
+  | zero => intro c v h; simp [valOKu] at h
+  | succ n ih =>
+    intro c v h
+    have hitem : ∀ (var : XmlVar) (x : Val), itemOKu (valOKu e Γ fac n) Γ var x = true →
+        itemOKj (valOKj e Γ fac n) Γ fac var x = true := by
+      intro var x hx
+      cases x with
+      | obj k' fs' =>
+        simp only [itemOKu] at hx
+        simp only [itemOKj]
+        cases hc : var.clazz with
+        | none => simp [hc] at hx
+        | some k =>
+          simp only [hc, Bool.and_eq_true] at hx ⊢
+          refine ⟨ih _ _ hx.1, ?_⟩
+          have hmem := hx.2
+          simp only [memPool, Bool.and_eq_true, Option.isSome_iff_exists] at hmem
+          obtain ⟨⟨ci, hfind⟩, hk'⟩ := hmem
+          obtain ⟨hci, hid⟩ := find_mem hfind
+          have hsubs : (subclassesOf Γ k).isEmpty = true := by
+            have := List.all_eq_true.mp huni ci hci
+            rwa [hid] at this
+          have hnil : subclassesOf Γ k = [] := List.isEmpty_iff.mp hsubs
+          simp only [poolOKj, hsubs, if_true]
+          simpa [hnil] using hk'
+      | _ => exact hx
+    have hwild : ∀ (x : Val), wildItemOKj (valOKu e Γ fac n) x = true → wildItemOKj (valOKj e Γ fac n) x = true := by
+      intro x hx
+      cases x with
+      | any q t tl a cs => exact ih _ _ hx
+      | _ => exact hx
+    have hval : ∀ (var : XmlVar) (x : Val), valueOKu (valOKu e Γ fac n) Γ var x = true →
+        valueOKj (valOKj e Γ fac n) Γ fac var x = true := by
+      intro var x hx
+      unfold valueOKu at hx
+      unfold valueOKj
+      by_cases ha : var.isAttributes = true
+      · simpa [ha] using hx
+      · have ha' : var.isAttributes = false := by simpa using ha
+        simp only [ha', Bool.false_eq_true, if_false] at hx ⊢
+        by_cases hw : var.isWildcard = true
+        · simp only [hw, if_true, wildValueOKj] at hx ⊢
+          by_cases hl : var.listElement = true
+          · simp only [hl, if_true] at hx ⊢
+            cases x with
+            | list items =>
+              simp only [List.all_eq_true] at hx ⊢
+              exact fun y hy => hwild y (hx y hy)
+            | _ => exact hx
+          · have hl' : var.listElement = false := by simpa using hl
+            simp only [hl', Bool.false_eq_true, if_false] at hx ⊢
+            cases x with
+            | list xs => exact hx
+            | _ => exact hwild _ hx
+        · have hw' : var.isWildcard = false := by simpa using hw
+          simp only [hw', Bool.false_eq_true, if_false, typedValueOKu, typedValueOKj] at hx ⊢
+          by_cases hl : var.listElement = true
+          · simp only [hl, if_true] at hx ⊢
+            cases x with
+            | list items =>
+              simp only [List.all_eq_true] at hx ⊢
+              exact fun y hy => hitem var y (hx y hy)
+            | _ => exact hx
+          · have hl' : var.listElement = false := by simpa using hl
+            simp only [hl', Bool.false_eq_true, if_false] at hx ⊢
+            cases x with
+            | list xs => exact hx
+            | _ => exact hitem var _ hx
+    unfold valOKu at h
+    unfold valOKj
+    cases hobj : asObject v with
+    | none => simp [hobj] at h
+    | some cf =>
+      obtain ⟨c', fs⟩ := cf
+      simp only [hobj] at h ⊢
+      cases hfind : Γ.find c with
+      | none => simp [hfind] at h
+      | some ci =>
+        cases hmeta : metaOf Γ c with
+        | error err => simp [hfind, hmeta] at h
+        | ok m =>
+          simp only [hfind, hmeta, Bool.and_eq_true, List.all_eq_true] at h ⊢
+          obtain ⟨hhead, ⟨⟨⟨hcl, hnames⟩, hvars⟩, hfields⟩⟩ := h
+          refine ⟨hhead, ⟨⟨⟨hcl, hnames⟩, ?_⟩, hfields⟩⟩
+          intro var hvar
+          have := hvars var hvar
+          cases hget : kvGet fs var.name with
+          | none => simp [hget] at this
+          | some x =>
+            simp only [hget, Bool.and_eq_true] at this ⊢
+            exact ⟨hval var x this.1, this.2⟩
+
 end Proofs.C04
